@@ -29,8 +29,11 @@ Definition api (v : version) (c : call) : res item :=
   | CConnect cls cs first bridge ka cid will user pw props =>
       (* Client(): 'A client id must be provided if clean session is False.' *)
       if negb (is_v5 v) && negb cls && is_empty cid then Raise E_value
-      (* will_set(): 'Invalid topic.' / 'Invalid QoS level.' *)
-      else if match will with Some w => is_empty (wc_topic w) || qos_bad (wc_qos w) | None => false end then Raise E_value
+      (* will_set(): 'Invalid topic.' / 'Invalid QoS level.' / _raise_for_invalid_topic (wildcard, > 65535 bytes; commit 470efe3) *)
+      else if match will with
+              | Some w => is_empty (wc_topic w) || qos_bad (wc_qos w) || has_wildcard (wc_topic w) || (len (wc_topic w) >? 65535)
+              | None => false
+              end then Raise E_value
       (* keepalive setter: 'Keepalive must be >=0.' *)
       else if ka <? 0 then Raise E_value
       else Ok (IConnect {| c_bridge := bridge; c_clean := clean_flag v cls cs first; c_keepalive := ka;
@@ -47,7 +50,8 @@ Definition api (v : version) (c : call) : res item :=
       else if has_wildcard topic then Raise E_value                         (* _raise_for_invalid_topic *)
       else if len topic >? 65535 then Raise E_value
       else if qos_bad qos then Raise E_value                                (* 'Invalid QoS level.' *)
-      else if len payload >? 268435455 then Raise E_value                   (* 'Payload too large.' *)
+      (* 'Payload too large.': the whole remaining length is checked, before _mid_generate (commit 4b93c7d) *)
+      else if publish_remlen_n v qos topic (packed props) (len payload) >? 268435455 then Raise E_value
       else Ok (IPublish {| p_dup := false; p_qos := qos; p_retain := retain; p_mid := mid_next last_mid;
                            p_topic := topic; p_payload := payload; p_props := packed props |})
   | CSubscribe last_mid topics props =>
@@ -61,8 +65,9 @@ Definition api (v : version) (c : call) : res item :=
                                  else sr_qos r)) topics)
                  (packed props))
   | CUnsubscribe last_mid topics props =>
-      if existsb is_empty topics then Raise E_value                         (* 'Invalid topic.' *)
-      else Ok (IUnsubscribe (mid_next last_mid) topics (packed props))      (* an empty LIST is not rejected *)
+      if is_empty topics then Raise E_value                                 (* 'Empty topic list' (commit d11e023) *)
+      else if existsb is_empty topics then Raise E_value                    (* 'Invalid topic.' *)
+      else Ok (IUnsubscribe (mid_next last_mid) topics (packed props))
   | CDisconnect reason props => Ok (IDisconnect reason props)
   end.
 
@@ -97,10 +102,10 @@ Definition api_pre (v : version) (c : call) : bool :=
       match reason with Some rc => byte_ok rc | None => true end && oprops_wf props
   end.
 
-(* ---- the explicit exclusions of the partial theorem (each is a reported defect, see *_refuted) *)
-Definition excl_remlen (v : version) (c : call) : bool :=                  (* F-C04a *)
-  match api v c with Ok it => remlen v it <=? rl_max | _ => true end.
-Definition excl_nul (c : call) : bool :=                                   (* F-C04b *)
+(* ---- the explicit exclusion of the partial theorem: the one open defect F-C04b (U+0000 in a text field).
+   F-C04a (remaining length), F-C04c (unsubscribe([])), F-C04d (wildcard will topic) were repaired in /repo;
+   the model follows the repaired code and they are no longer excluded. *)
+Definition excl_nul (c : call) : bool :=
   match c with
   | CConnect _ _ _ _ _ cid will user _ _ =>
       no_nul cid && match will with Some w => no_nul (wc_topic w) | None => true end
@@ -110,15 +115,7 @@ Definition excl_nul (c : call) : bool :=                                   (* F-
   | CUnsubscribe _ topics _ => forallb no_nul topics
   | CDisconnect _ _ => true
   end.
-Definition excl_unsub_empty (c : call) : bool :=                           (* F-C04c *)
-  match c with CUnsubscribe _ topics _ => negb (is_empty topics) | _ => true end.
-Definition excl_will_wildcard (c : call) : bool :=                         (* F-C04d *)
-  match c with
-  | CConnect _ _ _ _ _ _ (Some w) _ _ _ => negb (has_wildcard (wc_topic w))
-  | _ => true
-  end.
-Definition excl (v : version) (c : call) : bool :=
-  excl_remlen v c && excl_nul c && excl_unsub_empty c && excl_will_wildcard c.
+Definition excl (v : version) (c : call) : bool := excl_nul c.
 
 (* ---- what the application supplied, in the decoder's vocabulary *)
 Definition content (p : option bytes) : bytes := props_content (packed p).
